@@ -438,6 +438,19 @@ fn rel_operator(input: &[u8]) -> PResult<&str> {
     .parse(input)
 }
 
+#[cfg(feature = "verif-hooks")]
+pub(crate) fn verif_parse_with(which: &str, buf: &[u8]) -> Option<String> {
+    use crate::verif_hooks::str_result;
+    let n = buf.len();
+    Some(match which {
+        "for_variable" => str_result(n, for_variable(buf)),
+        "loop_expression" => str_result(n, loop_expression(buf)),
+        "logic_expression" => str_result(n, logic_expression(buf)),
+        "cond_expression" => str_result(n, cond_expression(buf)),
+        _ => return None,
+    })
+}
+
 #[cfg(test)]
 mod test {
     use super::super::parseresult::show_errors;
